@@ -16,15 +16,25 @@ def py_exec(req):
     op = req['op']
     try:
         c = circ_from_json(req['c'])
-        if op == 'eval_full':
-            return {'ok': asg_out(c.evaluate_full_circuit(asg_to_py(req['asg'])))}
-        if op == 'eval_lazy':
-            kw = {}
-            if req.get('outs') is not None:
-                kw['outputs'] = list(req['outs'])
-            return {'ok': asg_out(c.evaluate_circuit(asg_to_py(req['asg']), **kw))}
-        if op == 'eval_outputs':
-            return {'ok': asg_out(c.evaluate_circuit_outputs(asg_to_py(req['asg'])))}
+        if op in ('eval_full', 'eval_lazy', 'eval_outputs'):
+            # the caller's assignment must come back untouched: a caller that reuses its dict for
+            # the next call (cirbo's own minimisation code does) would otherwise pin internal gates
+            # to stale values — unsound, non-monotone and Undefined-under-total results
+            mine = asg_to_py(req['asg'])
+            before = dict(mine)
+            if op == 'eval_full':
+                res = c.evaluate_full_circuit(mine)
+            elif op == 'eval_lazy':
+                kw = {}
+                if req.get('outs') is not None:
+                    kw['outputs'] = list(req['outs'])
+                res = c.evaluate_circuit(mine, **kw)
+            else:
+                res = c.evaluate_circuit_outputs(mine)
+            out = asg_out(res)
+            if mine != before or list(mine) != list(before):
+                return {'err': 'CallerAssignmentModified'}
+            return {'ok': out}
         if op == 'evaluate':
             return {'ok': [v3s(x) for x in c.evaluate([v3p(v) for v in req['vals']])]}
         if op == 'evaluate_at':
